@@ -2,11 +2,12 @@
     /repo/src/tensora/iteration_graph/_generate_ir.py (gen/GenerateIR.v), for ALL graphs.
     No hand model of the IR generator exists; what is proved here is about the regenerated function itself.
     design.d/TIE_genir.md *)
-From Coq Require Import ZArith Bool List String Lia Permutation Sorted.
+From Coq Require Import ZArith Bool List String Ascii Lia Permutation Sorted.
 From TV Require Import spec.Num spec.PyBase spec.PyLib model.GraphsIter.
 From TV Require Import gen.IRAst gen.Names gen.ExhaustAst gen.Exhaust gen.IterGraphs gen.GlueGen.
 From TV Require Import gen.AppendGen gen.GenerateIR.
 From TV Require model.Graphs proofs.GraphsInd proofs.GraphsSimplify proofs.GraphsAssign proofs.GraphsMerge proofs.GenGraphs_base proofs.GenGraphs_equiv.
+From TV Require proofs.Certs2Base proofs.GenGenIR_sound.
 From TV Require proofs.Certs proofs.GenAppend_decl proofs.GenAppend_equiv proofs.Certs3Defs proofs.Certs2Input.
 Import ListNotations.
 Open Scope bool_scope.
@@ -1496,3 +1497,215 @@ Corollary gen_library_graphs_outputs_definition fval a fs gs tr fmts dims :
   GenGraphs_equiv.to_iteration_graphs_src a fs = GM.ROk gs -> GM.identify (GM.a_target a) fs = Some tr ->
   Forall (fun g => graph_outputs_of (MkDefinition (GB.up_tref tr) fmts dims) (GB.up_graph fval g) = true) gs.
 Proof. intros H Hid. exact (gen_library_graphs_outputs fval a fs gs tr H Hid). Qed.
+
+(** * 12. (b) inputs untouched: [safe_stmt T body] for an explicit taint set T *)
+Module CI := TV.proofs.Certs2Input.
+Module CB := TV.proofs.Certs2Base.
+Local Open Scope string_scope.
+
+Section SAFE.
+  Variable T : list string.
+  Variable outT : Tensor.
+  Variable ov : id_expr.
+  Hypothesis Hov : conv_tensor ov = Some outT.
+  (* what names_ok provides *)
+  Hypothesis Hout : CB.mem (Tensor_name outT) T = false.
+  Hypothesis Hpre_out : forall r, CB.mem (Tensor_name outT ++ String "_"%char r) T = false.
+  Hypothesis Hpre_p : forall r, CB.mem (String "p" (String "_"%char r)) T = false.
+  Hypothesis Hpre_i : forall r, CB.mem (String "i" (String "_"%char r)) T = false.
+  Hypothesis Hpre_b : forall r, CB.mem (String "b"%char (String "u"%char (String "c"%char (String "k"%char (String "e"%char (String "t"%char (String "_"%char r))))))) T = false.
+  Hypothesis Hidx : forall i, In i (Tensor_indexes outT) -> CB.mem i T = false.
+
+  Definition okI : stmt -> bool := CI.safe_stmt T.
+  Definition cleanE (e : expr) : bool := negb (CI.may_input T e).
+
+  Class GoodI (X : Type) := goodi : X -> Prop.
+  #[local] Instance goodi_sb : GoodI sb := fun b => forallb okI (sb_lines b) = true.
+  #[local] Instance goodi_stmt : GoodI stmt := fun s => okI s = true.
+  #[local] Instance goodi_expr : GoodI expr := fun e => cleanE e = true.
+  #[local] Instance goodi_out : GoodI Output := fun o => Output_output o = outT.
+  #[local] Instance goodi_graph : GoodI ig_graph := fun g => graph_outputs_of_t ov g = true.
+  #[local] Instance goodi_list {X} `{GoodI X} : GoodI (list X) := fun l => Forall goodi l.
+  #[local] Instance goodi_prod {A B} `{GoodI A} `{GoodI B} : GoodI (A * B) := fun p => goodi (fst p) /\ goodi (snd p).
+  #[local] Instance goodi_option {X} `{GoodI X} : GoodI (option X) := fun o => match o with Some x => goodi x | None => True end.
+  #[local] Instance goodi_default {X} : GoodI X | 100 := fun _ => True.
+
+  Lemma wp_bind_goodi {A B} `{GoodI A} (x : option A) (f : A -> option B) (Q : B -> Prop) :
+    wp x goodi -> (forall v, goodi v -> wp (f v) Q) -> wp (obind x f) Q.
+  Proof. apply wp_bind. Qed.
+  Lemma wp_of_goodi {X} `{GoodI X} (o : option X) : goodi o -> wp o goodi.
+  Proof. intros Ho r E. subst o. exact Ho. Qed.
+
+  Lemma gi_append_stmt (s : sb) x : goodi s -> okI x = true -> goodi (sb_append_stmt s x).
+  Proof. unfold goodi, goodi_sb, sb_append_stmt. cbn. intros H Hx. rewrite forallb_app, H. cbn. rewrite Hx. reflexivity. Qed.
+  Lemma gi_finalize (s : sb) : goodi s -> okI (sb_finalize s) = true.
+  Proof. intros H. exact H. Qed.
+  Lemma gi_append_sb (s x : sb) : goodi s -> goodi x -> goodi (sb_append_sb s x).
+  Proof.
+    unfold sb_append_sb. intros Hs Hx. destruct (sb_comment x).
+    - apply (gi_append_stmt s _ Hs). exact Hx.
+    - unfold goodi, goodi_sb in *. cbn. rewrite forallb_app, Hs, Hx. reflexivity.
+  Qed.
+  Lemma gi_close_branch (o : sb) c (i : sb) : goodi o -> goodi i -> goodi (sb_close_branch o c i).
+  Proof. intros Ho Hi. apply gi_append_stmt; auto. unfold okI. cbn. unfold goodi, goodi_sb, okI in Hi. rewrite Hi. reflexivity. Qed.
+  Lemma gi_close_loop (o : sb) c (i : sb) : goodi o -> goodi i -> goodi (sb_close_loop o c i).
+  Proof. intros Ho Hi. apply gi_append_stmt; auto. Qed.
+  Lemma gi_close_block (o : sb) c (i : sb) : goodi o -> goodi i -> goodi (sb_close_block o c i).
+  Proof. intros Ho Hi. apply gi_append_stmt; auto. Qed.
+
+  Lemma mem_same x : negb (CB.mem x T) || CB.mem x T = true.
+  Proof. destruct (CB.mem x T); reflexivity. Qed.
+
+  (* a statement given explicitly: compute, then use the name facts *)
+  Ltac gi_stmt :=
+    unfold goodi, goodi_stmt, goodi_expr, okI, cleanE in *;
+    first [ reflexivity
+          | assumption
+          | cbn; repeat match goal with H : _ = outT |- _ => rewrite !H end;
+            repeat match goal with H : CB.mem _ T = false |- _ => rewrite !H end;
+            rewrite ?Hpre_out, ?Hpre_p, ?Hpre_i, ?Hpre_b, ?Hout, ?mem_same; cbn;
+            repeat match goal with H : negb (CI.may_input T ?e) = true |- context [CI.may_input T ?e] => rewrite (proj1 (negb_true_iff _) H) end;
+            cbn; rewrite ?Hpre_out, ?Hpre_p, ?Hpre_i, ?Hpre_b, ?Hout, ?mem_same; reflexivity
+          | idtac ].
+
+  Lemma gi_sparse_init leaf : goodi (write_sparse_initialization leaf).
+  Proof. unfold goodi, goodi_sb, okI. cbn. rewrite ?Hpre_p. reflexivity. Qed.
+
+  Lemma wp_ofold_all {A B} (P : A -> Prop) (f : B -> A -> option B) (l : list A) (init : B) (I : B -> Prop) :
+    Forall P l -> (forall acc x, P x -> I acc -> wp (f acc x) I) -> I init -> wp (ofold f l init) I.
+  Proof.
+    intros Hl Hf. revert init. induction Hl as [|x l Hx Hl IH]; intros init Hi r E; cbn in E.
+    - injection E as <-. exact Hi.
+    - destruct (f init x) as [a|] eqn:Ef; [|discriminate]. exact (IH a (Hf init x Hx Hi a Ef) r E).
+  Qed.
+  Lemma wp_ofold_goodi {A B} `{GoodI A} (f : B -> A -> option B) (l : list A) (init : B) (I : B -> Prop) :
+    goodi l -> (forall acc x, goodi x -> I acc -> wp (f acc x) I) -> I init -> wp (ofold f l init) I.
+  Proof. apply wp_ofold_all. Qed.
+
+  Ltac gi_solve :=
+    cbn [fst snd] in *;
+    lazymatch goal with
+    | |- goodi (sb_append_stmt _ _) => apply gi_append_stmt; [gi_solve | gi_stmt]
+    | |- goodi (sb_append_sb _ _) => apply gi_append_sb; gi_solve
+    | |- goodi (sb_close_branch _ _ _) => apply gi_close_branch; gi_solve
+    | |- goodi (sb_close_loop _ _ _) => apply gi_close_loop; gi_solve
+    | |- goodi (sb_close_block _ _ _) => apply gi_close_block; gi_solve
+    | |- goodi (MkSB [] _) => reflexivity
+    | |- goodi (write_sparse_initialization _) => apply gi_sparse_init
+    | |- goodi (_, _) => split; gi_solve
+    | |- goodi_prod (_, _) => split; gi_solve
+    | |- goodi (Some _) => unfold goodi, goodi_option; gi_solve
+    | |- goodi (@None _) => exact I
+    | |- @goodi (list _) _ (_ ++ [_])%list => apply Forall_app; split; [assumption | constructor; [gi_solve | constructor]]
+    | |- @goodi (list _) _ [] => constructor
+    | |- @goodi (list _) _ _ => first [assumption | solve [apply Forall_forall; intros ? _; gi_solve] | idtac]
+    | |- @goodi stmt _ (sb_finalize _) => apply gi_finalize; gi_solve
+    | |- @goodi stmt _ _ => gi_stmt
+    | |- @goodi expr _ _ => gi_stmt
+    | |- _ => first [ assumption | exact I | solve [repeat split; exact I]
+                    | solve [unfold goodi, goodi_option, goodi_prod, goodi_default;
+                             repeat match goal with |- context [match ?x with _ => _ end] => destruct x end;
+                             repeat split; exact I]
+                    | idtac ]
+    end.
+
+  Ltac destruct_gi :=
+    repeat match goal with
+           | H : @goodi (_ * _) _ _ |- _ => destruct H
+           | H : goodi_prod _ |- _ => destruct H
+           end; cbn [fst snd] in *.
+
+  Ltac wi_go db :=
+    cbv beta;
+    lazymatch goal with
+    | |- wp (Some _) _ => apply wp_some; wi_post db
+    | |- wp None _ => apply wp_none
+    | |- wp (match ?x with Some _ => _ | None => _ end) _ => first [apply wp_if | destruct x; destruct_gi]; wi_go db
+    | |- wp (if ?c then _ else _) _ => first [apply wp_if | destruct c; destruct_gi]; wi_go db
+    | |- wp (let '(_, _) := ?p in _) _ => destruct p; destruct_gi; wi_go db
+    | |- wp (ofold _ _ _) _ =>
+        apply wp_ofold_goodi; [ gi_solve
+                              | let acc := fresh "acc" in let x := fresh "x" in let Hx := fresh "Hx" in let Ha := fresh "Ha" in
+                                intros acc x Hx Ha; wi_go db
+                              | gi_solve ]
+    | |- wp (obind ?x ?f) _ =>
+        apply wp_bind_goodi;
+        [ first [ solve [db] | wi_go db ]
+        | let v := fresh "v" in let Hv := fresh "Hv" in intros v Hv; wi_go db ]
+    | |- wp _ goodi => first [ solve [db] | solve [apply wp_of_goodi; assumption] | solve [intros ? ?; gi_solve] | idtac ]
+    | |- _ => idtac
+    end
+  with wi_post db :=
+    lazymatch goal with
+    | |- wp _ _ => wi_go db
+    | |- goodi _ => destruct_gi; gi_solve
+    | |- _ => idtac
+    end.
+
+  (** leaves of gen/AppendGen.v *)
+  Ltac db0 := fail.
+  Lemma wi_crd_assembly tl : TensorLayer_tensor tl = outT -> wp (write_crd_assembly tl) goodi.
+  Proof.
+    intros E. unfold write_crd_assembly. cbv zeta. rewrite E.
+    apply wp_bind with (P := fun i => CB.mem i T = false).
+    { intros i Hi. apply Hidx. unfold py_getitem in Hi. repeat match type of Hi with (if ?c then _ else _) = _ => destruct c end;
+        try discriminate; eapply nth_error_In; eauto. }
+    intros i Hi. wi_go db0.
+  Qed.
+
+  Lemma wi_pos_allocation tl : TensorLayer_tensor tl = outT -> wp (write_pos_allocation tl) goodi.
+  Proof.
+    intros E. unfold write_pos_allocation. cbv zeta.
+    apply wp_bind_any. intros [dd br]. cbv beta iota.
+    destruct (Z.eqb _ _); cbn [obind]; cbv beta iota; wi_go db0.
+  Qed.
+  Lemma wi_pos_assembly tl : TensorLayer_tensor tl = outT -> goodi (write_pos_assembly tl).
+  Proof. intros E. unfold write_pos_assembly. cbv zeta. gi_solve. Qed.
+  Lemma wi_bucket_declarations b l r : BucketOutput_output b = outT -> cleanE l = true -> wp (BucketOutput_write_declarations b (Add l r)) goodi.
+  Proof.
+    intros E Hr. unfold BucketOutput_write_declarations. cbv zeta.
+    apply wp_bind_any. intros dn. wi_go db0.
+  Qed.
+  Lemma wi_bucket_assignment b rhs k : BucketOutput_output b = outT -> wp (BucketOutput_write_assignment b rhs k) goodi.
+  Proof. intros E. unfold BucketOutput_write_assignment. cbv zeta. repeat (apply wp_bind_any; intros ?). apply wp_some. gi_solve. Qed.
+
+  Lemma wi_next_output o io k : goodi o -> wp (Output_next_output o io k) goodi.
+  Proof.
+    intros Ho. destruct o as [a|b]; cbn [Output_next_output]; unfold goodi, goodi_out in Ho; cbn [Output_output] in Ho.
+    - unfold AppendOutput_next_output. cbv zeta.
+      destruct (match io with Some iteration_output => _ | None => false end).
+      + apply wp_some. repeat split. exact Ho.
+      + destruct (forallb _ _); [|apply wp_none].
+        apply wp_bind with (P := fun nb => BucketOutput_output nb = outT).
+        { intros nb Hnb. unfold BucketOutput_init in Hnb. cbv zeta in Hnb.
+          destruct (ofold _ _ _); cbn [obind] in Hnb; [|discriminate]. injection Hnb as <-. exact Ho. }
+        intros nb Hnb. destruct (KernelType_is_compute k).
+        * apply wp_bind_goodi.
+          { apply wp_bind_goodi; [|intros v Hv; apply wp_some; exact Hv].
+            unfold Expression_plus. cbn [to_expression]. apply wi_bucket_declarations; auto.
+            unfold cleanE. cbn. rewrite Ho. rewrite Hpre_out. reflexivity. }
+          intros v Hv. apply wp_some. repeat split; auto.
+        * cbn [obind]. apply wp_some. repeat split; auto.
+    - apply wp_some. unfold BucketOutput_next_output. destruct io; repeat split; exact Ho.
+  Qed.
+  Lemma cleanE_to_ir e : cleanE (to_ir e) = true.
+  Proof. unfold cleanE. induction e; cbn; auto. Qed.
+  Lemma wi_write_assignment o e k : goodi o -> wp (Output_write_assignment o (to_ir e) k) goodi.
+  Proof.
+    intros Ho. pose proof (cleanE_to_ir e) as Hc. destruct o as [a|b]; cbn [Output_write_assignment]; unfold goodi, goodi_out in Ho; cbn [Output_output] in Ho;
+      [|apply wi_bucket_assignment; exact Ho].
+    unfold AppendOutput_write_assignment. cbv zeta. destruct (negb _); [apply wp_none|]. apply wp_some.
+    apply gi_append_stmt; [reflexivity|]. unfold okI.
+    assert (R : CI.rhs_ok T (to_ir e) = true) by (destruct e; reflexivity).
+    unfold cleanE in Hc. apply negb_true_iff in Hc.
+    cbn -[CI.rhs_ok CI.may_input to_ir]. rewrite R, Hc. cbn. rewrite Ho, Hpre_out. reflexivity.
+  Qed.
+
+End SAFE.
+
+(** the closure-free route, stated on whole kernels: safe for an explicit T + the inputs in T  =>  the conclusion of CERT_input *)
+Definition gen_input_safe_semantic (T : list string) (f : function_definition) : Prop :=
+  match f with
+  | FunctionDefinition name ps rt body =>
+      (forall x, In x (CB.param_names (tl ps)) -> In x T) /\ CI.safe_stmt T body = true
+  end.
